@@ -1,6 +1,7 @@
 package main
 
 import (
+	"math"
 	blake2bLib "golang.org/x/crypto/blake2b"
 	"fmt"
 	"go/types"
@@ -167,6 +168,27 @@ func bitsLen(x *Term) *Term {
 var errorIface = types.Universe.Lookup("error").Type().Underlying().(*types.Interface)
 
 func init() {
+	// math on concrete operands is executed natively; symbolic floats in these functions are not encodable
+	m1 := map[string]func(float64) float64{"Log2": math.Log2, "Ceil": math.Ceil, "Floor": math.Floor, "Sqrt": math.Sqrt, "Log": math.Log, "Exp": math.Exp,
+		"Atan": math.Atan, "Abs": math.Abs, "Trunc": math.Trunc, "Round": math.Round, "Log10": math.Log10}
+	for n, f := range m1 {
+		f := f
+		n := n
+		intrinsics["math."+n] = func(in *Interp, fn *ssa.Function, a []Value) Value {
+			x := a[0].(Float)
+			if x.T != nil {
+				in.fail("math.%s of a symbolic float", n)
+			}
+			return Float{F: f(x.F)}
+		}
+	}
+	intrinsics["math.Pow"] = func(in *Interp, fn *ssa.Function, a []Value) Value {
+		x, y := a[0].(Float), a[1].(Float)
+		if x.T != nil || y.T != nil {
+			in.fail("math.Pow of a symbolic float")
+		}
+		return Float{F: math.Pow(x.F, y.F)}
+	}
 	for _, n := range []string{"RegisterType", "RegisterFile", "RegisterEnum", "RegisterMapType", "RegisterExtension", "GoGoProtoPackageIsVersion3", "GoGoProtoPackageIsVersion2"} {
 		intrinsics["github.com/gogo/protobuf/proto."+n] = func(in *Interp, fn *ssa.Function, a []Value) Value { return nil }
 		intrinsics["github.com/golang/protobuf/proto."+n] = func(in *Interp, fn *ssa.Function, a []Value) Value { return nil }
